@@ -382,12 +382,13 @@ impl C16 {
         }
         let n = self.items.len() as u64;
         // implementation-agnostic: even a writer that offered one byte per poll would stay below this
-        let budget = self.sink.len() as u64 * (1 + self.sink_repeat as u64) + self.caller.len() as u64 + 10 * (n + 1) + 64 + 2 * off as u64;
+        let budget = self.sink.len() as u64 * (1 + self.sink_repeat as u64) + self.caller.len() as u64 + 10 * (n + 1) + 64 + byte_budget(off);
         let budget = budget + 2 * self.flush_lane.len() as u64;
         let core = SinkCore::new(self.sink.clone(), None, budget, obs.clone());
         core.borrow_mut().layout = layout;
         core.borrow_mut().flush_lane = self.flush_lane.clone();
         core.borrow_mut().repeat_left = self.sink_repeat;
+        core.borrow_mut().data_cap = 2 * off + 65_536;
         let mut writer = AsyncWriter::with_buffer(SimAsyncSink(core.clone()), garbage(self.init_buf as usize));
         if self.init_buf > 0 {
             obs.borrow_mut().fault(fk::garbage_buffer);
